@@ -442,13 +442,33 @@ pub fn minimise(prop: &dyn Property, scn: &Scenario, refdata: Option<&RefData>, 
     let mut best_res = res.clone();
     let mut best_viol = viol.clone();
     let mut budget = 400i32;
+    // the attempts are also bounded by the simulated steps they execute (a deterministic measure):
+    // a runaway program makes every attempt run to the step cap, and 400 of those take an hour
+    let step_budget = std::cell::Cell::new(400_000i64);
+    // and a key already minimised twice by this process gets only the sanity replay: the later
+    // replay files of that key stay exact, just longer
+    static SEEN: std::sync::Mutex<Option<BTreeMap<String, u32>>> = std::sync::Mutex::new(None);
+    {
+        let mut g = SEEN.lock().unwrap();
+        let n = g.get_or_insert_with(BTreeMap::new).entry(key.clone()).or_insert(0);
+        *n += 1;
+        if *n > 2 {
+            budget = 1;
+        }
+    }
 
     let mut attempt = |cand: &RunSpec, budget: &mut i32| -> Option<(RunResult, Violation)> {
-        if *budget <= 0 {
+        if *budget <= 0 || step_budget.get() <= 0 {
+            *budget = 0;
             return None;
         }
         *budget -= 1;
+        let t0 = std::time::Instant::now();
         let r = run_spec(prop, scn, cand.clone(), false);
+        step_budget.set(step_budget.get() - r.steps as i64);
+        if std::env::var("QSIM_DEBUG_MIN").is_ok() {
+            eprintln!("minimise attempt: {} steps, {:?}, end {:?}, left {} / {}", r.steps, t0.elapsed(), r.end, budget, step_budget.get());
+        }
         let vs = all_violations(prop, scn, refdata, &r);
         same_key(&vs, &key).map(|v| (r, v))
     };
